@@ -127,6 +127,10 @@ def check_worker(ctx, prog):
                     running_before, running_after = len(curr), len(wv.fields[ci].fields)
                     if op == 'replace':
                         claims['at_most_one_job_lost_with_the_dead_worker'] = running_before <= 1
+                        # a replacement is put to work: jobs still waiting in the slot's own queue afterwards mean that a hand-over to the new worker was tried
+                        # and refused - also when the dead worker had nothing in flight (a job parked there after a refused hand-over)
+                        attempts = [e for e in o.st.trace if e[0] == 'CAST']
+                        claims['a_replacement_with_waiting_jobs_is_offered_the_next_one'] = (not kept) or bool(attempts)
                         seen.add('replace')
                     if op == 'complete' and k in curr:
                         seen.add('complete')
